@@ -8,16 +8,9 @@ Open Scope N_scope.
    only the stale-trash-row defect produces; excluded by the bridge invariant, see refused_unchanged_l below) *)
 Definition put_on_recordless (s : st) (o : op) : bool :=
   match o with Put d _ _ => negb (has_rec s d) && memN d (loc s) | _ => false end.
-(* ... and a second one, which the invariant does NOT exclude: an ingest naming an id the datastore already knows (the copied file is
-   removed by the rollback although it may have replaced an artifact: /repo finding F-C01-reingest) *)
-Definition reingest_known (s : st) (o : op) : bool :=
-  match o with
-  | Ingest d1 d2 _ _ => has_rec s d1 || memN d1 (loc s) || (has_rec s d2 || memN d2 (loc s))
-  | _ => false
-  end.
-Lemma refused_unchanged_raw : forall s o s' e, put_on_recordless s o = false -> reingest_known s o = false -> step s o = (s', Err e) -> s' = s.
+Lemma refused_unchanged_raw : forall s o s' e, put_on_recordless s o = false -> step s o = (s', Err e) -> s' = s.
 Proof.
-  intros s o s' e G G' H. destruct o; simpl in H, G, G';
+  intros s o s' e G H. destruct o; simpl in H, G;
   repeat match type of H with
   | context [match ?x with _ => _ end] => destruct x eqn:?; simpl in H
   end; simpl in G; try congruence; try (inversion H; reflexivity).
@@ -140,9 +133,9 @@ Record wf (s : st) : Prop := {
 Lemma wf_init : wf init.
 Proof. constructor; simpl; intros; try contradiction; discriminate. Qed.
 
-Lemma refused_unchanged_l : forall s o s' e, wf s -> reingest_known s o = false -> step s o = (s', Err e) -> s' = s.
+Lemma refused_unchanged_l : forall s o s' e, wf s -> step s o = (s', Err e) -> s' = s.
 Proof.
-  intros s o s' e W K H. apply (refused_unchanged_raw s o s' e); [| exact K | exact H].
+  intros s o s' e W H. apply (refused_unchanged_raw s o s' e); [| exact H].
   destruct o; try reflexivity. simpl. destruct (memN d (loc s)) eqn:M; [| apply andb_false_r].
   apply memN_In in M. rewrite (w_loc_rec s W d M). reflexivity.
 Qed.
@@ -314,8 +307,7 @@ Proof.
   - (* Trash1 *) destruct (artifact_present s d); simpl; [apply wf_ds_trash |]; exact W.
   - (* Ingest *) destruct (ctype s r) as [[] |]; simpl; try exact W.
     destruct (d1 =? d2) eqn:E0; simpl; [exact W |]. destruct (negb _); simpl; [exact W |].
-    destruct (has_rec s d1 || memN d1 (loc s) || (has_rec s d2 || memN d2 (loc s))) eqn:E; simpl;
-      [eapply wf_same_datastore; [| | | exact W]; reflexivity |].
+    destruct (has_rec s d1 || memN d1 (loc s) || (has_rec s d2 || memN d2 (loc s))) eqn:E; simpl; [exact W |].
     apply orb_false_iff in E. destruct E as [E1 E2]. apply orb_false_iff in E1, E2. destruct E1 as [A1 B1]. destruct E2 as [A2 B2].
     apply N.eqb_neq in E0. apply memN_false in B1, B2.
     apply (wf_ingest s d1 d2 (r, k)); assumption.
